@@ -102,13 +102,14 @@ def gen_script(rng, tmp):
     return toks, cmds
 
 
-def run_real(toks, delay, warp, inc, commits):
+def run_real(toks, delay, warp, inc, commits, force_caps=False):
     """-> (timed trace [(t, bytes|None)], finished)"""
     clock = Clock()
     vclient.reactor = clock
     command.reactor = clock
     log = []
     f = command.VNCDoCLIFactory()
+    f.force_caps = force_caps
     f.deferred = Deferred()
     marker = []
 
@@ -206,7 +207,7 @@ def expected_kinds(cmds):
     return cmds
 
 
-def judge(cmds, delay, warp, trace, finished, commits, inc=False, file_at=None):
+def judge(cmds, delay, warp, trace, finished, commits, inc=False, file_at=None, force_caps=False):
     """The statement as a reference schedule, independent of the Coq model: every command's messages in order at the
     time the previous command finished (+ delay), pauses of d / warp, drags stepping every 0.2 s, capture / expect
     completing at the right commit, close last and once."""
@@ -239,7 +240,10 @@ def judge(cmds, delay, warp, trace, finished, commits, inc=False, file_at=None):
 
     def keysyms(k):
         parts = k.split("-") if len(k) > 1 else [k]
-        return [vclient.KEYMAP.get(p) or ord(p) for p in parts]
+        syms = [vclient.KEYMAP.get(p) or ord(p) for p in parts]
+        if force_caps and len(k) == 1 and (k.isupper() or k in vclient.VNCDoToolClient.SPECIAL_KEYS_US):
+            syms = [0xFFE1] + syms          # --force-caps: shift is held around the character
+        return syms
 
     for ci, c in enumerate(cmds):
         k = c[0]
@@ -257,7 +261,10 @@ def judge(cmds, delay, warp, trace, finished, commits, inc=False, file_at=None):
                 err = err or need(ci, c, ("KeyEvent", 0, s_), t)
         elif k == "type":
             for n_, ch in enumerate(c[1]):
-                err = err or need(ci, c, ("KeyEvent", 1, ord(ch)), state["t"]) or need(ci, c, ("KeyEvent", 0, ord(ch)), state["t"])
+                for s_ in keysyms(ch):
+                    err = err or need(ci, c, ("KeyEvent", 1, s_), state["t"])
+                for s_ in reversed(keysyms(ch)):
+                    err = err or need(ci, c, ("KeyEvent", 0, s_), state["t"])
                 if dsec:
                     state["t"] += dsec
         elif k == "move":
@@ -343,7 +350,9 @@ def run(tier, seed, model):
             for _ in range(rng.randrange(0, 30)):
                 t += rng.choice([0.013, 0.171, 0.333, 0.77, 1.37, 2.9]) + rng.random() * 1e-3
                 commits.append((t, rng.randrange(len(COLOURS))))
-            trace, start, finished, failed = run_real(toks, delay, warp, inc, commits)
+            fc = rng.random() < 0.25
+            camp.count("force-caps" if fc else "no-force-caps")
+            trace, start, finished, failed = run_real(toks, delay, warp, inc, commits, fc)
             trace = trace[start:]
             camp.evaluations += 1
             camp.count("delay:%s" % delay)
@@ -356,15 +365,15 @@ def run(tier, seed, model):
             if failed:
                 why = f"the script failed at run time: {failed[0].getErrorMessage()}"
             else:
-                why = judge(cmds, delay, warp, trace, finished, commits, inc, file_at)
+                why = judge(cmds, delay, warp, trace, finished, commits, inc, file_at, fc)
             if why:
                 camp.oracle_failures.append({"kind": "oracle", "property": "C08",
-                                             "case": {"tokens": toks, "delay": delay, "warp": warp, "inc": inc, "commits": commits},
+                                             "case": {"tokens": toks, "delay": delay, "warp": warp, "inc": inc, "commits": commits, "force_caps": fc},
                                              "what": f"script {' '.join(os.path.basename(x) for x in toks)!r} (delay={delay}, warp={warp}): {why}"})
                 if len(camp.oracle_failures) >= 3:
                     break
                 continue
-            if model is not None:
+            if model is not None and not fc:      # (the script interpreter of the model has no forced-caps mode: oracle only)
                 mc = [[Fraction(tc).numerator, Fraction(tc).denominator, [int(col == k) for k in range(len(COLOURS) - 1)]] for tc, col in commits]
                 reqs.append(("script_run", [W, H, sop_list(cmds, delay, warp, inc, file_at), mc]))
                 meta.append((i, merge(trace), finished, toks))
@@ -410,7 +419,7 @@ def replay(payload):
     try:
         for k, col in enumerate(COLOURS[:-1]):
             Image.new("RGB", (W, H), col).save(os.path.join(tmp, "aw%d.png" % k))
-        trace, start, finished, failed = run_real(case["tokens"], case["delay"], case["warp"], case["inc"], [tuple(c) for c in case["commits"]])
+        trace, start, finished, failed = run_real(case["tokens"], case["delay"], case["warp"], case["inc"], [tuple(c) for c in case["commits"]], case.get("force_caps", False))
         return True, f"replay: finished={finished}, {len(trace) - start} writes, failed={bool(failed)} (re-run ./check C08 to judge)"
     finally:
         shutil.rmtree(tmp, ignore_errors=True)
